@@ -53,8 +53,27 @@ def run(tier, seed):
     iec = [p for p in prefixes if ns[p].base == 2]
     dimsyms = [d for d in dims if d != "Number"]
     failures, samples, evals, distinct = [], [], 0, set()
+    ns.setdefault("Unit", measured.Unit)
 
     mixed_bases = False
+    # ground part: every registered named unit is the object its own arithmetic returns (a named unit that the intern table does not
+    # know could never be produced by an expression)
+    named_done = [False]
+
+    def ground_named():
+        import measured as M
+        for nm_, u in sorted(M.Unit._by_name.items()):
+            ns["_gu"] = u
+            for law, src in (("neutral", "_gu * One"), ("neutral", "One * _gu"), ("neutral", "_gu / One"), ("power-one", "_gu ** 1"),
+                             ("cancel", "(_gu * Second) / Second"), ("self-inverse", "_gu * _gu ** -1 * _gu")):
+                try:
+                    r = eval(src, ns)
+                    okk = r is u
+                except Exception as e:
+                    okk, r = False, "%s: %s" % (type(e).__name__, e)
+                if not okk and sum(1 for f in failures if f["key"] == "named-unit:" + law) < 2:
+                    failures.append({"key": "named-unit:" + law, "desc": "for the registered unit %r, %s is %r, not the unit itself" % (nm_, src.replace("_gu", "u"), str(r)[:80]),
+                                     "a": src.replace("_gu", "Unit._by_name[%r]" % nm_), "b": "Unit._by_name[%r]" % nm_, "mode": "is"})
 
     def bases_of(atom_srcs):
         bs = set()
@@ -95,7 +114,9 @@ def run(tier, seed):
             failures.append({"key": "%s:not-identical" % kind, "desc": "%s  is not  %s  (%r vs %r)" % (src_a, src_b, a, b), "a": src_a, "b": src_b,
                              "mode": "scale-or-is" if mixed_bases else "is"})
 
-    while evals < n and len([f for f in failures if not f['key'].startswith('mixed-base-root')]) < 6:
+    ground_named()
+    evals += 6 * len(measured.Unit._by_name)
+    while evals < n + 6 * len(measured.Unit._by_name) and len([f for f in failures if not f['key'].startswith('mixed-base-root')]) < 6:
         kind = rng.choice(["unit", "unit", "unit", "dim", "prefix"])
         forced = None
         if kind == "unit":
@@ -177,5 +198,5 @@ def replay_body(f):
                 "import math\nlg = lambda p: float(p.exponent) * math.log(p.base) if p.base else 0.0\nok = a is b or (a.factors == b.factors and abs(lg(a.prefix) - lg(b.prefix)) <= 1e-9)\n"
                 "sys.exit(0 if ok else 1)\n" % (f["a"], f["b"]))
     if f["mode"] == "is":
-        return "a = eval(%r, ns)\nb = eval(%r, ns)\nprint(repr(a), repr(b))\nsys.exit(0 if a is b else 1)\n" % (f["a"], f["b"])
+        return "import measured\nns.setdefault('Unit', measured.Unit)\na = eval(%r, ns)\nb = eval(%r, ns)\nprint(repr(a), repr(b))\nsys.exit(0 if a is b else 1)\n" % (f["a"], f["b"])
     return "g = float(eval(%r, ns).quantify())\nw = %s\nprint(g, w)\nsys.exit(0 if abs(g / w - 1) <= 1e-9 else 1)\n" % (f["a"], f["b"])
